@@ -1003,7 +1003,7 @@ func (s *c38Sim) opLifecycle() {
 				ver = ac.Version // including the account address
 			}
 		}
-		switch s.r.Intn(8) {
+		switch s.r.Intn(5) {
 		case 0:
 			if ord == channeltypes.ORDERED {
 				ord = channeltypes.UNORDERED
